@@ -28,6 +28,13 @@ type fcase struct {
 	// (two-shard producer) or "reuse1" (one-shard producer); Expected are the
 	// reference rows every round must deliver.
 	Scenario string   `json:"scenario,omitempty"`
+	// Scenario "boot": machines are lost while booting. The j-th machine (in the
+	// order of their first Worker.FuncLocations call, which startMachines makes
+	// as soon as a machine is Running) is killed at that call, for every j in
+	// Boot; BootVariant "before" (request never arrives) or "after" (handler ran,
+	// reply lost). The program is run and scanned as usual.
+	Boot        []int  `json:"boot,omitempty"`
+	BootVariant string `json:"boot_variant,omitempty"`
 	Expected []string `json:"expected,omitempty"`
 }
 
@@ -59,6 +66,8 @@ type cresult struct {
 	Ms       int64    `json:"ms"`
 	// Spaced-losses history: rounds completed successfully, and kills of the
 	// replacement machine on receipt of Worker.Run for the producer task.
+	// BootFired: number of machines killed at their first Worker.FuncLocations call.
+	BootFired  int `json:"boot_fired,omitempty"`
 	Rounds     int `json:"rounds,omitempty"`
 	ArmedKills int `json:"armed_kills,omitempty"`
 	// NotRun: the child gave up before this case (an earlier case hung).
@@ -143,7 +152,27 @@ func runCase(c fcase) cresult {
 	readBounds := map[string][]int{}
 	callee := make([]string, len(c.Faults))
 	var deadCall []string
+	bootOrd := map[string]int{}
+	bootAfter := map[string]bool{}
+	bootFired := 0
 	sys.Hook = func(call *vsys.Call) error {
+		if call.Method == "Worker.FuncLocations" && len(c.Boot) > 0 {
+			mu.Lock()
+			if _, seen := bootOrd[call.Host]; !seen && sys.Alive(call.Host) {
+				bootOrd[call.Host] = len(bootOrd) + 1
+				for _, j := range c.Boot {
+					if j == bootOrd[call.Host] {
+						if c.BootVariant == "before" {
+							bootFired++
+							sys.Kill(call.Host)
+						} else {
+							bootAfter[call.Host] = true
+						}
+					}
+				}
+			}
+			mu.Unlock()
+		}
 		if call.Label != "" && !sys.Alive(call.Host) {
 			mu.Lock()
 			deadCall = append(deadCall, call.Label)
@@ -173,6 +202,11 @@ func runCase(c fcase) cresult {
 	}
 	sys.After = func(call *vsys.Call, status int, body []byte) {
 		mu.Lock()
+		if call.Method == "Worker.FuncLocations" && bootAfter[call.Host] {
+			delete(bootAfter, call.Host)
+			bootFired++
+			sys.Kill(call.Host)
+		}
 		for i, f := range c.Faults {
 			if f.Label == call.Label && ovictim[i] != "" {
 				switch f.Variant {
@@ -254,6 +288,7 @@ func runCase(c fcase) cresult {
 		}
 	}
 	r.DeadCall = deadCall
+	r.BootFired = bootFired
 	r.Callee = callee
 	mu.Unlock()
 	r.FiredAt = make([]int, len(c.Faults))
